@@ -84,6 +84,9 @@ impl super::Authorizer {
             };
 
             let mut block = proto_snapshot_block_to_token_block(block)?;
+            // in a snapshot every block, third-party ones included, is expressed with the
+            // snapshot's symbol and public key tables
+            block.symbols = token_symbols.clone();
 
             if let Some(key) = block.external_key.as_ref() {
                 public_key_to_block_id
